@@ -23,6 +23,7 @@ pub mod c18;
 pub mod c19;
 pub mod c20;
 pub mod c20e;
+pub mod universal;
 
 use crate::Ctx;
 use mdv_core::Report;
@@ -34,7 +35,50 @@ pub fn level_of(prop: &str) -> &'static str {
     }
 }
 
+/// The universal oracle of a property, whether it tolerates dumps taken under injected faults, and the
+/// host explorers whose dumps it is applied to (see universal.rs).
+fn cross_plan(prop: &str, thorough: bool) -> Option<(universal::Oracle, bool, Vec<&'static str>)> {
+    // explorers whose targets are quiescent (threads parked) and have no null-stack-pointer threads
+    let quiet = ["C01", "C02", "C05", "C06", "C07", "C08", "C15", "C18", "C19", "C20"];
+    let except = |me: &str, extra: &[&'static str]| -> Vec<&'static str> { quiet.iter().copied().chain(extra.iter().copied()).filter(|h| *h != me).collect() };
+    Some(match prop {
+        // C01 and C11 already drive C02's case list themselves (EXTRA_JUDGE)
+        "C01" => (universal::c01, true, if thorough { except("C02", &["C04", "C11", "C03"]).into_iter().filter(|h| *h != "C01").collect() } else { except("C02", &["C04", "C11"]).into_iter().filter(|h| *h != "C01").collect() }),
+        "C11" => (universal::c11, true, if thorough { except("C02", &["C04", "C03"]) } else { except("C02", &["C04"]) }),
+        "C02" => (universal::c02, true, if thorough { except("C02", &["C04", "C11", "C03"]) } else { except("C02", &["C04", "C11"]) }),
+        "C04" => (universal::c04, false, except("C04", &[])),
+        "C05" => (universal::c05, false, except("C05", &[])),
+        "C06" => (universal::c06, false, except("C06", &[])),
+        "C07" => (universal::c07, false, except("C07", &[])),
+        "C15" => (universal::c15, false, except("C15", &["C04"])),
+        "C18" => (universal::c18, false, except("C18", &["C04"])),
+        _ => return None,
+    })
+}
+
 pub fn dispatch(prop: &str, ctx: &Ctx, rep: &mut Report) -> bool {
+    if let (Some(case), Some((o, tol, _))) = (&ctx.replay, cross_plan(prop, false)) {
+        if universal::replay(case, rep, o, tol) {
+            return true;
+        }
+    }
+    if !dispatch_native(prop, ctx, rep) {
+        return false;
+    }
+    if ctx.replay.is_none() && !universal::IN_CROSS.load(std::sync::atomic::Ordering::SeqCst) {
+        if let Some((o, tol, hosts)) = cross_plan(prop, ctx.tier.is_thorough()) {
+            universal::watch_panics(prop == "C02");
+            universal::run_hosts(rep, ctx.tier, o, tol, &hosts);
+            universal::watch_panics(false);
+            if prop == "C02" {
+                rep.set("cross_dump_requests_watched_for_panic_and_hang", mdv_core::json!(universal::requests_seen()));
+            }
+        }
+    }
+    true
+}
+
+fn dispatch_native(prop: &str, ctx: &Ctx, rep: &mut Report) -> bool {
     match prop {
         "C01" => c01::run(ctx, rep),
         "C02" => c02::run(ctx, rep),
